@@ -57,6 +57,7 @@ if __name__ == "__main__":
     E["C03-rdf-default-after-torn-source"] = ("C03", [{"op": "init", "source": "sample:pagebreak.odt", "how": "path", "salt": 0}, SAVE(target="inplace", fault={"site": "writestr", "k": 1, "errno": "EACCES", "partial": False}), SAVE(target="path")], "violation")
     E["C03-folder-save-ignores-failed-rmtree"] = ("C03", [{"op": "init", "source": "sample:note.odt", "how": "folder", "salt": 6}, {"op": "del_part", "name": "Thumbnails/thumbnail.png"}, SAVE(packaging="folder", target="inplace", fault={"site": "rmtree", "k": 1, "errno": "EACCES", "partial": True})], "violation")
     E["C03-folder-save-ignores-failed-move"] = ("C03", [{"op": "init", "source": "sample:note.odt", "how": "folder", "salt": 6}, {"op": "del_part", "name": "Thumbnails/thumbnail.png"}, SAVE(packaging="folder", target="inplace", fault={"site": "move", "k": 1, "errno": "EACCES", "partial": True}, backup=True)], "violation")
+    E["C03-empty-dir-entry-from-torn-folder-source"] = ("C03", [{"op": "init", "source": "template:presentation"}, SAVE(packaging="folder", target="path_noext"), {"op": "reopen", "art": 0, "salt": 2}, SAVE(packaging="folder", target="inplace", backup=True, fault={"site": "write_bytes", "k": 8, "errno": "ENOSPC", "partial": False}), {"op": "del_part", "name": "Configurations2/accelerator/current.xml"}, SAVE(target="path_noext")], "violation")
     E["C11-pretty-inline-tail-indent"] = ("C11", [{"op": "init", "source": "template:text"}, {"op": "rich_para", "xml": "<text:p>alpha<text:tab/><text:span text:style-name=\"T1\">beta</text:span></text:p>"}, {"op": "save_set", "variants": [{"packaging": "zip", "pretty": True, "target": "bytesio"}]}], "violation")
     E["fixed-C11-pretty-save-edits-memory"] = ("C11", [{"op": "init", "source": "sample:list.odt", "how": "path", "salt": 0}, {"op": "save_set", "variants": [{"packaging": "folder", "pretty": None, "target": "path"}]}], "pass")
     DCFG = {"max_steps": 40, "leg": "D"}
